@@ -6,7 +6,7 @@ Import ListNotations.
 Require Import Fggs.Model.Conj Fggs.Proofs.ConjBase Fggs.Proofs.ConjNames.
 Require Import Fggs.Model.TreeDec Fggs.Proofs.TreeDec_graph Fggs.Proofs.TreeDec_tdok Fggs.Model.Factorize
                Fggs.Proofs.Fz_fresh Fggs.Proofs.Fz_rooted Fggs.Proofs.Fz_struct Fggs.Proofs.Fz_main
-               Fggs.Proofs.Fz_bridge Fggs.Proofs.Fz_final.
+               Fggs.Proofs.Fz_bridge Fggs.Proofs.Fz_final Fggs.Proofs.Fz_labels.
 
 Definition NT (s : str) (ty : list nat) : elabel := {| el_name := s; el_type := ty; el_term := false |}.
 Definition TM (s : str) (ty : list nat) : elabel := {| el_name := s; el_type := ty; el_term := true |}.
@@ -62,7 +62,7 @@ Proof.
   - eexists. eexists. split; [vm_compute; reflexivity|reflexivity].
 Qed.
 
-(** * F7: factorize_fgg drops [method] *)
+(** * F7 (repaired in /repo 207a206): factorize_fgg used to drop [method] *)
 Definition g_path : fhrg :=
   {| fh_nlabels := [0]; fh_elabels := [lS; lt]; fh_start := lS; fh_rules := [(lS, [path4])] |}.
 Definition fg_path : ffgg := {| ff_hrg := g_path; ff_domains := [(0, 2)]; ff_factors := [([116], 0)] |}.
@@ -75,68 +75,81 @@ Lemma orc_path_genuine m :
 Proof. destruct m as [|[|m]]; reflexivity. Qed.
 
 Definition hrg_of (x : result ffgg) : result fhrg := match x with Ok f => Ok (ff_hrg f) | Err e => Err e end.
-(** what honouring the argument would mean *)
-Definition method_honoured (m : nat) (g : ffgg) (orc : nat -> list rule_oracle) : Prop :=
-  hrg_of (factorize_fgg_model m g orc) = (h <- factorize_hrg_model m (ff_hrg g) orc ;; from_hrg_model h).
+(** what honouring the argument means: the decompositions used are those of method [m] *)
+Definition method_honoured (fz : nat -> ffgg -> (nat -> list rule_oracle) -> result ffgg)
+           (m : nat) (g : ffgg) (orc : nat -> list rule_oracle) : Prop :=
+  hrg_of (fz m g orc) = (h <- factorize_hrg_with (ff_hrg g) (orc m) ;; from_hrg_model h).
 
-Theorem method_honoured_refuted :
+(** the three entry points honour [method]: factorize_rule takes the decomposition of the
+    requested method as its argument by construction; factorize_hrg passes [orc m] to every
+    factorize_rule call; factorize_fgg (as of 207a206) passes [m] on *)
+Theorem hrg_method_honoured m g orc : factorize_hrg_model m g orc = factorize_hrg_with g (orc m).
+Proof. reflexivity. Qed.
+Theorem fgg_method_honoured m g orc : method_honoured factorize_fgg_model m g orc.
+Proof.
+  unfold method_honoured, factorize_fgg_model, factorize_hrg_model.
+  destruct (factorize_hrg_with (ff_hrg g) (orc m)) as [h|e]; [|reflexivity]. cbn [bind].
+  destruct (from_hrg_model h); reflexivity.
+Qed.
+(** the code before the repair: refuted ... *)
+Theorem fgg_old_method_honoured_refuted :
   exists g orc m,
     (forall k, map (fun ro => Some (fst ro)) (orc k)
                = map (fun c => option_map canon_ftd (tree_decomposition k (primal c))) (fh_all_rules (ff_hrg g)))
-    /\ ~ method_honoured m g orc.
+    /\ ~ method_honoured factorize_fgg_old_model m g orc.
 Proof.
   exists fg_path, orc_path, 2. split; [exact orc_path_genuine|].
   unfold method_honoured. vm_compute. discriminate.
 Qed.
-(** positive, under the guard [m = 0] (min_fill, the default) ... *)
-Theorem method_honoured_min_fill g orc : method_honoured 0 g orc.
+(** ... and honoured only under the guard [m = 0] (min_fill, the default) *)
+Theorem fgg_old_method_honoured_min_fill g orc : method_honoured factorize_fgg_old_model 0 g orc.
 Proof.
-  unfold method_honoured, factorize_fgg_model.
-  destruct (factorize_hrg_model 0 (ff_hrg g) orc) as [h|e]; [|reflexivity]. cbn [bind].
+  unfold method_honoured, factorize_fgg_old_model, factorize_hrg_model.
+  destruct (factorize_hrg_with (ff_hrg g) (orc 0)) as [h|e]; [|reflexivity]. cbn [bind].
   destruct (from_hrg_model h); reflexivity.
 Qed.
-(** ... and factorize_hrg passes the method on to every factorize_rule call *)
-Theorem hrg_method_honoured m g orc : factorize_hrg_model m g orc = factorize_hrg_with g (orc m).
-Proof. reflexivity. Qed.
 
-(** * F22: a fresh name can be the name of a terminal label of the rule *)
+(** * F22 (repaired in /repo 211579c): a fresh name could be the name of a terminal label of the rule *)
 (** S -> the same path with edges labelled by the TERMINAL "S_1" *)
 Definition path4c : frule :=
   {| fr_lhs := lS; fr_nodes := [(0, 0); (1, 0); (2, 0); (3, 0)];
      fr_edges := [ED 1 lS1 [0; 1]; ED 2 lS1 [1; 2]; ED 3 lS1 [2; 3]]; fr_ext := [] |}.
-(** guard: the names of the rule's terminal labels are in the [labels] argument *)
-Definition terms_covered (r : frule) (labels : list elabel) : Prop :=
-  forall e, In e (fr_edges r) -> el_term (fe_lab e) = true -> In (el_name (fe_lab e)) (map el_name labels).
 
-Theorem fresh_refuted :
-  exists r t ords, td_ok (primal r) (td_of_ftd t) = true /\ factorize_rule_model r [] t ords = Err ValueErr.
+(** the code before the repair ([labels.update(rule.rhs.nonterminals())]) raised ValueError ... *)
+Theorem fresh_old_refuted :
+  exists r t ords, td_ok (primal r) (td_of_ftd t) = true /\ factorize_rule_old_model r [] t ords = Err ValueErr.
 Proof. exists path4c, td_mf, ords_mf. split; reflexivity. Qed.
-(** ... or, when the terminal sits in another bag, no exception but a name clash in the result *)
+(** ... or, when the terminal sits in another bag, returned a name clash *)
 Definition path4d : frule :=
   {| fr_lhs := lS; fr_nodes := [(0, 0); (1, 0); (2, 0); (3, 0)];
      fr_edges := [ED 1 lS1 [0; 1]; ED 2 lt [1; 2]; ED 3 lt [2; 3]]; fr_ext := [] |}.
-Theorem fresh_refuted_silent :
-  exists r t ords rs ls, td_ok (primal r) (td_of_ftd t) = true /\ factorize_rule_model r [] t ords = Ok (rs, ls)
+Theorem fresh_old_refuted_silent :
+  exists r t ords rs ls, td_ok (primal r) (td_of_ftd t) = true /\ factorize_rule_old_model r [] t ords = Ok (rs, ls)
     /\ exists c e, In c rs /\ In e (fr_edges r) /\ el_name (fr_lhs c) = el_name (fe_lab e).
 Proof.
   exists path4d, td_mf, ords_mf. eexists. eexists. split; [reflexivity|]. split; [vm_compute; reflexivity|].
   eexists. exists (ED 1 lS1 [0; 1]). split; [right; left; reflexivity|]. split; [now left|reflexivity].
 Qed.
+(** the code as it is now factorises both rules, the fresh names skip "S_1" *)
+Example fresh_now_ok :
+  (exists rs ls, factorize_rule_model path4c [] td_mf ords_mf = Ok (rs, ls)
+                 /\ map (fun c => el_name (fr_lhs c)) rs = [[83; 95; 51]; [83; 95; 50]; [83]])
+  /\ (exists rs ls, factorize_rule_model path4d [] td_mf ords_mf = Ok (rs, ls) /\ inline_ok path4d rs = true
+                    /\ fresh_ok [[83]; [83; 95; 49]; [116]] rs = true).
+Proof. split; eexists; eexists; (split; [vm_compute; reflexivity|]); repeat split; reflexivity. Qed.
 
-(** positive: under the guard the fresh names differ from the name of every label of the rule
-    and of the [labels] argument *)
+(** positive (no guard needed any more): the fresh names differ from the name of the rule's lhs,
+    of EVERY edge label of the rule and of every label of the [labels] argument *)
 Theorem fresh_names_ok r ords nm labels idx :
-  terms_covered r labels -> names_ok r ords nm (init_labels r labels) idx ->
+  names_ok r ords nm (init_labels r labels) idx ->
   forall j, In j idx ->
     ~ In (el_name (nm j)) (map el_name labels)
     /\ el_name (nm j) <> el_name (fr_lhs r)
     /\ forall e, In e (fr_edges r) -> el_name (nm j) <> el_name (fe_lab e).
 Proof.
-  intros TC [n1 n2 n3 n4] j Hj. specialize (n3 j Hj). unfold init_labels in n3. rewrite map_app, in_app_iff in n3.
+  intros [n1 n2 n3 n4] j Hj. specialize (n3 j Hj). unfold init_labels in n3. rewrite map_app, in_app_iff in n3.
   cbn [map In] in n3. split; [tauto|]. split; [intro E; apply n3; right; left; now symmetry|].
-  intros e He E. destruct (el_term (fe_lab e)) eqn:Tm.
-  - apply n3. right. right. rewrite E. now apply TC.
-  - apply n3. left. rewrite E. apply in_map. apply filter_In. split; [now apply in_map|]. unfold is_ntl. now rewrite Tm.
+  intros e He E. apply n3. left. rewrite E. rewrite map_map. apply in_map_iff. exists e. auto.
 Qed.
 
 (** * converse, used for detection: an invalid decomposition loses an edge *)
@@ -152,17 +165,19 @@ Proof.
   cbn. intros [H|[H|[H|[]]]]; discriminate.
 Qed.
 
-(** * F20: FGG.from_hrg rebuilds the label tables from the rules only *)
+(** * F20 (repaired in /repo 450bcaa + 833be06): the label tables used to be rebuilt from the rules *)
 (** the grammar [g_path] with one more terminal "u" that no rule uses, bound to a factor *)
 Definition g_path_u : fhrg :=
   {| fh_nlabels := [0]; fh_elabels := [lS; lt; lu]; fh_start := lS; fh_rules := [(lS, [path4])] |}.
 Definition fg_path_u : ffgg := {| ff_hrg := g_path_u; ff_domains := [(0, 2)]; ff_factors := [([116], 0); ([117], 1)] |}.
-Definition factors_bound (f : ffgg) : Prop :=
-  forall p, In p (ff_factors f) -> In (fst p) (map el_name (fh_elabels (ff_hrg f))).
-Theorem labels_preserved_refuted :
-  exists g orc f, factors_bound g /\ factorize_fgg_model 0 g orc = Ok f /\ ~ factors_bound f.
+(** the code before the repairs: factorize_hrg started from [HRG(g.start)] *)
+Theorem hrg_old_labels_refuted :
+  exists g orc h, factorize_hrg_old_with g orc = Ok h /\ exists l, In l (fh_elabels g) /\ ~ In l (fh_elabels h).
 Proof.
-  exists fg_path_u, orc_path. eexists. split; [|split; [vm_compute; reflexivity|]].
-  - intros p [<-|[<-|[]]]; cbn; tauto.
-  - intro H. specialize (H ([117], 1)). cbn in H. destruct H as [H|[H|[H|[H|[]]]]]; try discriminate. now right; left.
+  exists g_path_u, (orc_path 0). eexists. split; [vm_compute; reflexivity|]. exists lu. split; [cbn; tauto|].
+  cbn. intros [H|[H|[H|[H|[]]]]]; discriminate.
 Qed.
+(** the code as it is now keeps the label (and [factors_bound]) *)
+Example labels_now_kept :
+  exists f, factorize_fgg_model 0 fg_path_u orc_path = Ok f /\ In lu (fh_elabels (ff_hrg f)).
+Proof. eexists. split; [vm_compute; reflexivity|]. cbn. tauto. Qed.
